@@ -348,7 +348,8 @@ def pitch_spelling_to_midi_pitch(step, alter, octave):
 
 
 def midi_pitch_to_pitch_spelling(midi_pitch):
-    octave = midi_pitch // 12 - 1
+    # (int: the octave of an unsigned numpy integer below 12 is -1, not 255)
+    octave = int(midi_pitch) // 12 - 1
     step, alter = DUMMY_PS_BASE_CLASS[np.mod(midi_pitch, 12)]
     return ensure_pitch_spelling_format(step, alter, octave)
 
@@ -407,7 +408,8 @@ def midi_pitch_to_frequency(
     freq : float or ndarray
         Frequency of the note(s).
     """
-    freq = (a4 / 32) * (2 ** ((midi_pitch - 9) / 12))
+    # (9.0: an unsigned integer pitch below 9 must not wrap around)
+    freq = (a4 / 32) * (2 ** ((midi_pitch - 9.0) / 12))
     return freq
 
 
